@@ -44,3 +44,12 @@ CONSTS = [
     ("c_KDS_SERVICE_LABEL", "dpapi_ng._gkdi", "KDS_SERVICE_LABEL", "bytes"),
     ("c_EPOCH_FILETIME", "dpapi_ng._client", "_EPOCH_FILETIME", "Z"),
 ]
+
+# whole functions as Prelude/PyAst syntax (gen/Flows.v); world coq/Flow/World_core.v; tie theorems coq/Proofs/Flow_core_dns.v
+# (_get_highest_answer contains a lambda and is refused by the translator: in the world it is the model's selection function)
+from ..flow import Flow  # noqa: E402
+
+FLOWS = [
+    Flow("k_flow_lookup_dc", "_dns.py", "lookup_dc", props=("C20",)),
+    Flow("k_flow_async_lookup_dc", "_dns.py", "async_lookup_dc", props=("C20",)),
+]
